@@ -28,7 +28,7 @@ def transpose(adj):
     return t
 
 
-def run_dist(i, scratch, adj, app, hosts, policy, exe, threads, extra):
+def run_dist(i, scratch, adj, app, hosts, policy, exe, threads, extra, bound=180, retry=True):
     """one distributed run; returns (rc, per-node values or None, tail)"""
     d = os.path.join(scratch, "d%d" % i)
     os.makedirs(os.path.join(d, "out"), exist_ok=True)
@@ -37,9 +37,9 @@ def run_dist(i, scratch, adj, app, hosts, policy, exe, threads, extra):
     args = MPIRUN + ["-n", str(hosts), dbin("dapp-" + app), os.path.join(d, "g.gr"), "--graphTranspose=" + os.path.join(d, "g.tgr"), "--partition=" + policy,
                      "--exec=" + exe, "--output", "--outputLocation=" + os.path.join(d, "out"), "--runs=1", "-t=%d" % threads] + extra
     rc, out = 124, "timeout"
-    for attempt in (1, 3):
+    for attempt in ((1, 3) if retry else (1,)):
         try:
-            p = subprocess.run(args, stdout=subprocess.PIPE, stderr=subprocess.STDOUT, timeout=180 * attempt, env=dict(os.environ, GALOIS_DO_NOT_BIND_THREADS="1"))
+            p = subprocess.run(args, stdout=subprocess.PIPE, stderr=subprocess.STDOUT, timeout=bound * attempt, env=dict(os.environ, GALOIS_DO_NOT_BIND_THREADS="1"))
             rc, out = p.returncode, p.stdout.decode("utf-8", "replace")
             break
         except subprocess.TimeoutExpired:
@@ -73,6 +73,17 @@ def dist_jobs(rng, thorough):
                     for exe in ("Sync", "Async"):
                         src = rng.randrange(len(adj))
                         jobs.append((("dd", g), adj, app, hosts, pol, exe, 1 + rng.randrange(3), ["--startNode=%d" % src], dict(kind=app.split("-")[0], src=src)))
+        # enforced wire encodings (--metadata) in both execution models; the dense encoding with Async is the recorded finding D17
+        for md in ("bitset", "offsets", "gids", "none"):
+            for exe in ("Sync", "Async"):
+                if md == "none" and exe == "Async":
+                    continue
+                for app in ("bfs-push", "sssp-pull"):
+                    src = rng.randrange(len(adj))
+                    jobs.append((("dd", g), adj, app, 3, rng.choice(["oec", "cvc", "hivc"]), exe, 2, ["--startNode=%d" % src, "--metadata=" + md],
+                                 dict(kind=app.split("-")[0], src=src, meta=md)))
+        if g == 0:
+            jobs.append((("dd", g), adj, "bfs-push", 3, "cvc", "Async", 2, ["--startNode=0", "--metadata=none"], dict(kind="bfs", src=0, meta="none", probe="d17")))
         adj = gen_symmetric(rng, simple=True, weighted=False)
         while len(adj) < 3:
             adj = gen_symmetric(rng, simple=True, weighted=False)
@@ -344,8 +355,12 @@ def run(ev, vd):
 
     def ddo(ij):
         i, (key, adj, app, hosts, pol, exe, threads, extra, rec) = ij
-        rc, vals, tail = run_dist(i, scratch, adj, app, hosts, pol, exe, threads, extra)
-        r = dict(rec, k="dist", variant="%s/%dhosts/%s/t%d" % (exe, hosts, pol, threads), hosts=hosts, policy=pol, failed=0 if vals is not None else 1, rc=rc)
+        if rec.get("probe") == "d17":
+            rc, vals, tail = run_dist(i, scratch, adj, app, hosts, pol, exe, threads, extra, bound=45, retry=False)
+        else:
+            rc, vals, tail = run_dist(i, scratch, adj, app, hosts, pol, exe, threads, extra)
+        r = dict(rec, k="dist", variant="%s/%dhosts/%s/t%d%s" % (exe, hosts, pol, threads, ("/metadata-" + rec["meta"]) if rec.get("meta") else ""), hosts=hosts, policy=pol,
+                 failed=0 if vals is not None else 1, rc=rc)
         if vals is not None:
             r["vals"] = vals
         else:
@@ -385,7 +400,9 @@ def run(ev, vd):
         algo = rec.get("variant", "").split("/")[0]
         if rec.get("k") == "dist":
             algo = "%s/%s" % (rec.get("variant", "").split("/")[0], rec.get("policy"))
-        sig = dict(component="app:" + rec.get("app", "?"), op="crash" if rec.get("failed") and rec.get("rc") not in (0, None) else "result", algo=algo)
+            if rec.get("meta"):
+                algo = "%s/metadata-%s" % (rec.get("variant", "").split("/")[0], rec["meta"])
+        sig = dict(component="app:" + rec.get("app", "?"), op="hang" if rec.get("rc") == 124 else "crash" if rec.get("failed") and rec.get("rc") not in (0, None) else "result", algo=algo)
         vd.violation(sig, "%s (%s) on a %d-node graph: %s" % (rec.get("app"), rec.get("variant"), gr["n"], lines[g][:400]), dict(record=rec, graph=gr))
     ev.assumptions += [
         "results are observed through what the applications print (one reported node per BFS/SSSP run, counts, weights, cardinalities); the independent set itself is not printed, so only 'some maximal independent set has this size' plus the application's own verification is decided",
